@@ -410,4 +410,94 @@ class IndexArm(Arm):
         return {k_: case[k_] for k_ in ("form", "n", "m", "j", "k", "j2", "k2", "literal", "path", "names")}
 
 
-ARMS = [EvalNodeArm(), CodegenArm(), IndexArm()]
+# ----------------------------------------------------------------------------------------------------------------------
+# names with a meaning of their own
+# ----------------------------------------------------------------------------------------------------------------------
+#: names that the equation language, sympy or the code generators give a meaning of their own, and names close to them
+SPECIAL_NAMES = ["E", "pi", "I", "S", "N", "O", "Q", "oo", "zoo", "nan", "GoldenRatio", "EulerGamma", "Catalan",
+                 "TribonacciConstant", "beta", "gamma", "Beta", "Gamma", "zeta", "lambda_", "Lambda", "exp", "log", "sin",
+                 "sqrt", "abs", "Abs", "re", "im", "sign", "Max", "Min", "e", "Pi", "PI", "Ee", "E1", "y", "dy", "dt",
+                 "weight", "source_idx", "target_idx", "np", "inf", "Inf", "true", "false", "None_", "Symbol", "Integer",
+                 "Rational", "Float", "ff", "rf", "li", "Li", "Si", "Ci", "Ei", "erf", "uppergamma", "Chi", "Shi", "FU",
+                 "C", "D", "LT", "LC", "LM"]
+
+
+class SpecialNamesArm(Arm):
+    """a parameter whose NAME has a meaning of its own somewhere in the tool chain: the model is either refused (any
+    exception when the template is built or compiled) or the name denotes the declared variable - its declared value
+    enters the equation and changes with the argument of that name.  What may not happen is that the model is accepted
+    and the declared value is silently replaced by the other meaning of the name (E -> 2.718...)."""
+    name = "special_names"
+    budget = {"quick": 320, "thorough": 1500}
+    min_per_shard = 10
+
+    def strategy(self, ctx):
+        return st.fixed_dictionaries({"name": st.sampled_from(SPECIAL_NAMES), "value": st.sampled_from([3.0, -1.25, 0.4]),
+                                      "form": st.integers(0, 3), "notation": st.integers(0, 2),
+                                      "kind": st.sampled_from(["const", "const", "state", "input"])})
+
+    def run(self, case, ctx):
+        from ..model import compile_vf
+        res = CaseResult()
+        n, v = case["name"], case["value"]
+        a = "a" if n != "a" else "b"
+        nv = ["var", n]
+        ast = [["bin", "+", ["neg", ["var", "u"]], ["bin", "*", nv, ["var", a]]],
+               ["bin", "-", ["bin", "*", ["var", a], nv], ["var", "u"]],
+               ["bin", "+", ["bin", "/", ["var", "u"], nv], ["var", a]],
+               ["bin", "-", ["call", "tanh", ["bin", "+", nv, ["var", a]]], ["var", "u"]]][case["form"]]
+        vars_ = [["u", "state", 0.25], [a, "const", 2.0], [n, case["kind"], v]]
+        eqs = [["u", True, ast, case["notation"]]]
+        if case["kind"] == "state":
+            eqs.append([n, True, ["neg", nv], 0])
+        spec = {"ops": {"op0": {"vars": vars_, "eqs": eqs, "out": "u"}},
+                "ntypes": {"nt0": {"ops": ["op0"], "ov": {}}}, "nodes": [["p0", "nt0"]], "edges": [], "etypes": {}}
+        res.labels = ["kind:" + case["kind"]]
+        try:
+            c = compile_vf(spec, vectorize=False)
+        except HarnessError:
+            raise
+        except Exception as e:
+            res.labels.append("refused")
+            res.nontrivial = True
+            res.info["refused"] = 1
+            return res
+        res.labels.append("accepted")
+        res.nontrivial = True
+        key = f"p0/op0/{n}"
+        for val in (v, v + 0.75):
+            env = {"u": 0.25, a: 2.0, n: val}
+            ref = float(E.evaluate(ast, env))
+            try:
+                if case["kind"] == "state":
+                    y = np.array(c.y0, dtype=float)
+                    pos = c.positions()
+                    if key not in pos or "p0/op0/u" not in pos:
+                        res.violate("special-name:state-missing", f"state variable {n} has no position: {sorted(pos)}")
+                        return res
+                    y[pos[key][0]] = val
+                    got = c.call(0.0, y)[pos["p0/op0/u"][0]]
+                else:
+                    if key not in c.names:
+                        res.violate("special-name:declared-value-ignored",
+                                    f"u' = {E.render(ast)} with the declared {case['kind']} {n} = {v}: accepted, but {n} is "
+                                    f"not an argument of the generated function ({c.names[3:]}): the name means something else")
+                        return res
+                    pos = c.positions()
+                    got = c.call(0.0, c.y0, {key: val})[pos["p0/op0/u"][0]]
+            except HarnessError:
+                raise
+            except Exception as e:
+                res.violate(exc_bucket("special-name:call-raises", e), f"variable named {n}: {short_exc(e)}")
+                return res
+            if not abs(float(got) - ref) <= 1e-9 * (1 + abs(ref)):
+                res.violate("special-name:wrong-value", f"u' = {E.render(ast)} with {n} = {val}, {a} = 2.0, u = 0.25: generated "
+                                                        f"function gives {float(got)!r}, arithmetic says {ref!r}")
+                return res
+        return res
+
+    def sample(self, case):
+        return dict(case)
+
+
+ARMS = [EvalNodeArm(), CodegenArm(), IndexArm(), SpecialNamesArm()]
